@@ -189,7 +189,7 @@ Record Inv (ml : nat) (A : astate) (w : world) : Prop := mkInv {
   inv_fs : match aopen A with
            | None => fst w = None /\ aclosed A = false /\ asaved A = None
            | Some L => exists a, fst w = Some a /\ disk_repr a (disk ml A) (asaved A) /\
-                                 L <= length (aP A)
+                                 L <= length (aP A) /\ L <= ml
            end }.
 
 Lemma inv_init ml : Inv ml ainit (init ml).
@@ -202,27 +202,20 @@ Definition observer (o : op) : bool :=
   | _ => false
   end.
 
-Lemma observer_keeps_state v (w : world) o : observer o = true -> fst (step v w o) = w.
+Lemma observer_keeps_state (w : world) o : observer o = true -> fst (step w o) = w.
 Proof.
   destruct w as [fs h]. destruct o; cbn; try discriminate; intros _; try reflexivity.
   destruct (negb (fname h)); [reflexivity|]. destruct fs as [a|]; [|reflexivity].
   destruct (get_params a); reflexivity.
 Qed.
 
-Lemma observer_astep (A : astate) o : observer o = true -> astep A o = A.
+Lemma observer_astep ml (A : astate) o : observer o = true -> astep ml A o = A.
 Proof. destruct o; cbn; try discriminate; reflexivity. Qed.
-
-Lemma disk_open_empty ml (P : list item) (sv : option par) c :
-  disk ml (mkA P (Some (length P)) sv c) = [] \/ c = true.
-Proof.
-  destruct c; [now right|left]. unfold disk, shift. cbn.
-  apply skipn_all2. rewrite firstn_length. lia.
-Qed.
 
 Ltac sel := cbn [fst snd maxlen mem len fname closed aP aopen asaved aclosed opened negb orb andb].
 
-Theorem step_inv v ml A (w : world) o :
-  1 <= ml -> Inv ml A w -> op_ok A o = true -> Inv ml (astep A o) (fst (step v w o)).
+Theorem step_inv ml A (w : world) o :
+  1 <= ml -> Inv ml A w -> op_ok o = true -> Inv ml (astep ml A o) (fst (step w o)).
 Proof.
   intros Hml HI Hok.
   destruct (observer o) eqn:Hobs.
@@ -235,9 +228,15 @@ Proof.
     cbn [step astep]; sel. destruct ao as [L|]; sel.
     + constructor; sel; auto.
     + destruct I6 as (-> & Hc & Hs). cbn in Hc, Hs. subst cl sv.
-      constructor; sel; auto.
-      exists [MHeader]. split; [reflexivity|]. split; [|lia].
-      destruct (disk_open_empty ml P None false) as [->|]; [apply disk_repr_init|discriminate].
+      rewrite skipn_length.
+      destruct (Nat.ltb_spec (length P - (length P - ml)) (length P)) as [Hlt|Hge];
+        destruct (Nat.leb_spec (length P) ml) as [Hle|Hgt]; try lia.
+      * (* entries already dropped: refused *)
+        constructor; sel; auto.
+      * (* nothing dropped yet: the file is created *)
+        constructor; sel; auto.
+        exists [MHeader]. split; [reflexivity|]. split; [|cbn; lia].
+        unfold disk. cbn [aP aclosed]. replace (length P - ml) with 0 by lia. apply disk_repr_init.
   - (* Add *)
     cbn [step astep]; sel. destruct cl; [constructor; sel; auto|].
     assert (Hlen' : S (length P) = length (P ++ [x])) by (rewrite app_length; cbn; lia).
@@ -246,17 +245,17 @@ Proof.
       constructor; sel; auto.
       * apply push_skipn.
       * destruct ao as [L|]; [|exact I6].
-        destruct I6 as (a & -> & Hd & HL). cbn in HL.
+        destruct I6 as (a & -> & Hd & HL & HLm). cbn in HL.
         rewrite orb_false_r in Hb. apply Nat.ltb_lt in Hb. rewrite skipn_length in Hb.
         assert (HP : length P < ml) by lia.
         exists a. split; [reflexivity|]. split; [|rewrite app_length; cbn; lia].
-        unfold disk, shift in *. cbn [aP aopen asaved aclosed] in *.
+        unfold disk in *. cbn [aP aopen asaved aclosed] in *.
         replace (length (P ++ [x]) - ml) with 0 by (rewrite app_length; cbn; lia).
         replace (length P - ml) with 0 in Hd by lia. exact Hd.
     + (* spill the oldest entry *)
       apply orb_false_iff in Hb. destruct Hb as [Hfull Hf].
       destruct ao as [L|]; [|discriminate].
-      destruct I6 as (a & -> & Hd & HL). cbn in HL.
+      destruct I6 as (a & -> & Hd & HL & HLm). cbn in HL.
       apply Nat.ltb_ge in Hfull. rewrite skipn_length in Hfull.
       assert (HP : ml <= length P) by lia.
       destruct (@nth_error_in_range _ P (length P - ml)) as [y Hy]; [lia|].
@@ -265,12 +264,11 @@ Proof.
       * rewrite <- (@skipn_cons_nth _ _ _ _ Hy). apply push_skipn.
       * eexists. split; [reflexivity|]. split; [|rewrite app_length; cbn; lia].
         pose proof Hd as (_ & Hn & _ & _). rewrite Hn.
-        unfold disk, shift in *. cbn [aP aopen asaved aclosed] in *.
+        unfold disk in *. cbn [aP aopen asaved aclosed] in *.
         replace (length (P ++ [x]) - ml) with (S (length P - ml)) by (rewrite app_length; cbn; lia).
         rewrite firstn_app.
         replace (S (length P - ml) - length P) with 0 by lia. rewrite firstn_O, app_nil_r.
         rewrite (@firstn_succ_nth _ _ _ _ Hy).
-        rewrite skipn_app_le by (rewrite firstn_length; lia).
         apply disk_repr_coords. exact Hd.
   - (* SaveParams *)
     cbn [step astep]; sel. destruct ao as [L|]; sel.
@@ -282,78 +280,61 @@ Proof.
         apply disk_repr_params. exact Hd.
     + constructor; sel; auto.
   - (* Close *)
-    cbn in Hok. apply negb_true_iff in Hok. subst cl.
     cbn [step astep]; sel. destruct ao as [L|]; sel.
     + destruct I6 as (a & -> & Hd & HL). cbn in HL.
-      constructor; sel; auto.
-      eexists. split; [reflexivity|]. split; [|exact HL].
-      pose proof Hd as (_ & Hn & _ & _). rewrite Hn.
-      unfold disk, shift in *. cbn [aP aopen asaved aclosed] in *.
-      replace (skipn (L - ml) P)
-        with (skipn (L - ml) (firstn (length P - ml) P) ++ skipn (length P - ml) P)
-        by (rewrite <- skipn_app_le by (rewrite firstn_length; lia); now rewrite firstn_skipn).
-      apply disk_repr_cmem. exact Hd.
+      destruct cl.
+      * (* already closed: nothing happens *)
+        constructor; sel; auto. exists a. auto.
+      * constructor; sel; auto.
+        eexists. split; [reflexivity|]. split; [|exact HL].
+        pose proof Hd as (_ & Hn & _ & _). rewrite Hn.
+        unfold disk in *. cbn [aP aopen asaved aclosed] in *.
+        replace (disk_repr (a ++ cmem (length (firstn (length P - ml) P)) (skipn (length P - ml) P)) P sv)
+          with (disk_repr (a ++ cmem (length (firstn (length P - ml) P)) (skipn (length P - ml) P))
+                          (firstn (length P - ml) P ++ skipn (length P - ml) P) sv)
+          by (now rewrite firstn_skipn).
+        apply disk_repr_cmem. exact Hd.
     + constructor; sel; auto.
 Qed.
 
-Lemma proper_from_app (ops1 : list op) : forall A ops2,
-  proper_from A (ops1 ++ ops2) = true ->
-  proper_from A ops1 = true /\ proper_from (arun A ops1) ops2 = true.
-Proof.
-  induction ops1 as [|o r IH]; intros A ops2 H; cbn in *; [auto|].
-  apply andb_true_iff in H. destruct H as [H1 H2].
-  destruct (IH _ _ H2) as [H3 H4]. rewrite H1, H3. auto.
-Qed.
-
-Lemma arun_app (ops1 ops2 : list op) A : arun A (ops1 ++ ops2) = arun (arun A ops1) ops2.
+Lemma arun_app ml (ops1 ops2 : list op) A :
+  arun ml A (ops1 ++ ops2) = arun ml (arun ml A ops1) ops2.
 Proof. unfold arun. apply fold_left_app. Qed.
 
-Lemma run_inv v ml : forall (ops : list op) A (w : world),
-  1 <= ml -> Inv ml A w -> proper_from A ops = true ->
-  Inv ml (arun A ops) (fst (run v w ops)).
+Lemma run_inv ml : forall (ops : list op) A (w : world),
+  1 <= ml -> Inv ml A w -> proper ops = true ->
+  Inv ml (arun ml A ops) (fst (run w ops)).
 Proof.
   induction ops as [|o r IH]; intros A w Hml HI Hp; cbn in *; [exact HI|].
   apply andb_true_iff in Hp. destruct Hp as [H1 H2].
-  pose proof (@step_inv v ml A w o Hml HI H1) as HI'.
-  destruct (step v w o) as [w1 x] eqn:E1. cbn in HI'.
+  pose proof (@step_inv ml A w o Hml HI H1) as HI'.
+  destruct (step w o) as [w1 x] eqn:E1. cbn in HI'.
   specialize (IH _ _ Hml HI' H2).
-  destruct (run v w1 r) as [w2 xs]. exact IH.
+  destruct (run w1 r) as [w2 xs]. exact IH.
 Qed.
 
-Theorem exec_inv v ml (ops : list op) :
-  1 <= ml -> proper ops = true -> Inv ml (spec ops) (exec v ml ops).
+Theorem exec_inv ml (ops : list op) :
+  1 <= ml -> proper ops = true -> Inv ml (spec ml ops) (exec ml ops).
 Proof. intros Hml Hp. apply run_inv; auto. apply inv_init. Qed.
 
-(* the abstract machine only ever extends the pushed list and never re-opens *)
-Lemma astep_prefix (A : astate) o : exists r, aP (astep A o) = aP A ++ r.
+Lemma proper_app (ops1 ops2 : list op) :
+  proper (ops1 ++ ops2) = true -> proper ops1 = true /\ proper ops2 = true.
+Proof. unfold proper. rewrite forallb_app. apply andb_true_iff. Qed.
+
+(* the abstract machine only ever extends the pushed list *)
+Lemma astep_prefix ml (A : astate) o : exists r, aP (astep ml A o) = aP A ++ r.
 Proof.
   destruct o; cbn; try (exists []; now rewrite app_nil_r).
-  - destruct (aopen A); exists []; now rewrite app_nil_r.
+  - destruct (aopen A); [|destruct (length (aP A) <=? ml)]; exists []; now rewrite app_nil_r.
   - destruct (aclosed A); [exists []; now rewrite app_nil_r|exists [x]; reflexivity].
   - destruct (aopen A), (asaved A); exists []; now rewrite app_nil_r.
   - destruct (aopen A); exists []; now rewrite app_nil_r.
 Qed.
-Lemma arun_prefix (ops : list op) : forall A, exists r, aP (arun A ops) = aP A ++ r.
+Lemma arun_prefix ml (ops : list op) : forall A, exists r, aP (arun ml A ops) = aP A ++ r.
 Proof.
   induction ops as [|o ops IH]; intros A; cbn; [exists []; now rewrite app_nil_r|].
-  destruct (IH (astep A o)) as [r Hr]. destruct (astep_prefix A o) as [r0 Hr0].
+  destruct (IH (astep ml A o)) as [r Hr]. destruct (astep_prefix ml A o) as [r0 Hr0].
   exists (r0 ++ r). unfold arun in Hr. rewrite Hr, Hr0. now rewrite app_assoc.
-Qed.
-Lemma astep_open_stable (A : astate) o L : aopen A = Some L -> aopen (astep A o) = Some L.
-Proof.
-  intros H. destruct o; cbn; auto; rewrite ?H; auto.
-  - destruct (aclosed A); auto.
-  - destruct (asaved A); auto.
-Qed.
-Lemma arun_open_stable (ops : list op) : forall A L, aopen A = Some L -> aopen (arun A ops) = Some L.
-Proof.
-  induction ops as [|o ops IH]; intros A L H; cbn; [exact H|]. apply IH. now apply astep_open_stable.
-Qed.
-Lemma early_prefix ml (ops1 ops2 : list op) :
-  early ml (spec (ops1 ++ ops2)) = true -> early ml (spec ops1) = true.
-Proof.
-  unfold spec, early. rewrite arun_app. destruct (aopen (arun ainit ops1)) as [L|] eqn:E; [|auto].
-  now rewrite (@arun_open_stable ops2 _ _ E).
 Qed.
 
 (* ------------------------------------------------------------------ observers under the invariant *)
@@ -365,7 +346,7 @@ Hypothesis Hml : 1 <= ml.
 Hypothesis HI : Inv ml A w.
 Let P := aP A.
 
-(* __getitem__ after the index normalisation of base.py:1177-1178 *)
+(* __getitem__ after the index normalisation of base.py:1183-1184 *)
 Definition getitem_at (w0 : world) (i : Z) : res (option item) :=
   let (fs, h) := w0 in
   let L := Z.of_nat (len h) in
@@ -381,7 +362,7 @@ Lemma getitem_norm (w0 : world) z :
   getitem w0 z = getitem_at w0 (if (z <? 0)%Z then (z + Z.of_nat (len (snd w0)))%Z else z).
 Proof. destruct w0; reflexivity. Qed.
 
-(* negative indices count from the end (base.py:1177-1178) *)
+(* negative indices count from the end *)
 Lemma getitem_neg (z : Z) :
   (z < 0)%Z -> (0 <= z + Z.of_nat (length P))%Z ->
   getitem w z = getitem w (z + Z.of_nat (length P)).
@@ -444,24 +425,14 @@ Proof.
   rewrite Nat2Z.id, Hg. reflexivity.
 Qed.
 
-Lemma disk_early :
-  early ml A = true -> disk ml A = if aclosed A then P else firstn (length P - ml) P.
+(* with a file, every valid index returns the pushed entry *)
+Lemma getitem_opened (i : nat) :
+  opened A = true -> i < length P -> getitem w (Z.of_nat i) = Ok (nth_error P i).
 Proof.
-  unfold early, disk, shift. destruct (aopen A) as [L|]; intros H.
-  - apply Nat.leb_le in H. replace (L - ml) with 0 by lia. reflexivity.
-  - reflexivity.
-Qed.
-
-(* opened before the (maxlen+1)-th add: every valid index returns the pushed entry *)
-Lemma getitem_early (i : nat) :
-  early ml A = true -> opened A = true -> i < length P ->
-  getitem w (Z.of_nat i) = Ok (nth_error P i).
-Proof.
-  intros He Ho Hi. destruct (Nat.lt_ge_cases i (length P - ml)) as [Hs|Hm].
+  intros Ho Hi. destruct (Nat.lt_ge_cases i (length P - ml)) as [Hs|Hm].
   - rewrite (getitem_spilled Hs). unfold opened in Ho. destruct (aopen A) as [L|] eqn:EL; [|discriminate].
-    rewrite (disk_early He).
-    assert (E : nth_error (if aclosed A then P else firstn (length P - ml) P) i = nth_error P i).
-    { destruct (aclosed A); [reflexivity|]. now apply nth_error_firstn'. }
+    assert (E : nth_error (disk ml A) i = nth_error P i).
+    { unfold disk. fold P. destruct (aclosed A); [reflexivity|]. now apply nth_error_firstn'. }
     rewrite E. destruct (@nth_error_in_range _ _ _ Hi) as [y Hy]. now rewrite Hy.
   - now apply getitem_mem.
 Qed.
@@ -484,18 +455,18 @@ Proof.
   rewrite IH by (intros j Hj; apply H; now right). reflexivity.
 Qed.
 
-Lemma iter_early :
-  early ml A = true -> opened A = true ->
+Lemma iter_opened :
+  opened A = true ->
   collect w (seq 0 (length P)) = (map Some P, None) /\
   collect w (rev (seq 0 (length P))) = (map Some (rev P), None).
 Proof.
-  intros He Ho. split.
+  intros Ho. split.
   - rewrite (@collect_all (nth_error P)).
     + now rewrite map_nth_error_seq.
-    + intros i Hi. apply in_seq in Hi. apply getitem_early; auto; lia.
+    + intros i Hi. apply in_seq in Hi. apply getitem_opened; auto; lia.
   - rewrite (@collect_all (nth_error P)).
     + now rewrite map_rev, map_nth_error_seq, map_rev.
-    + intros i Hi. apply in_rev, in_seq in Hi. apply getitem_early; auto; lia.
+    + intros i Hi. apply in_rev, in_seq in Hi. apply getitem_opened; auto; lia.
 Qed.
 
 Lemma iter_nofile :
@@ -539,46 +510,38 @@ Proof.
   replace (S (length D - 1)) with (length D) by lia. now rewrite skipn_all.
 Qed.
 
-Lemma load_repr v (a : archive) D sv :
+(* load of an archive that holds the list D: length |D|, the last two entries in memory
+   (nothing for an empty archive) *)
+Lemma load_repr (a : archive) D sv :
   disk_repr a D sv ->
-  load_img v (IZip a) =
-  match D with
-  | [] => if v then Ok (mkHist 2 [] 0 true true) else Err EKey
-  | _ => Ok (mkHist 2 (skipn (length D - 2) D) (length D) true true)
-  end.
+  load_img (IZip a) = Ok (mkHist 2 (skipn (length D - 2) D) (length D) true true).
 Proof.
-  intros (Hh & Hn & Hg & Hp). unfold load_img. rewrite Hh, Hn. cbn [negb].
-  destruct D as [|d0 D'] eqn:ED.
-  - cbn. destruct v; reflexivity.
-  - rewrite <- ED in *. assert (HL : 1 <= length D) by (rewrite ED; cbn; lia).
-    unfold load_idxs. destruct (Nat.ltb_spec (length D) 2) as [H2|H2].
-    + assert (E1 : length D = 1) by lia. rewrite E1. cbn [Nat.eqb andb]. rewrite andb_false_r.
-      cbn [load_mem Z.of_nat]. cbn [Z.sub Z.add Z.opp Z.pos_sub Z.ltb Z.compare Z.to_nat].
-      rewrite Hg. destruct D as [|y [|y2 D2]]; cbn in E1; try lia. cbn. reflexivity.
-    + destruct (@nth_error_in_range _ D (length D - 2)) as [x1 H1]; [lia|].
-      destruct (@nth_error_in_range _ D (length D - 1)) as [x2 H2']; [lia|].
-      cbn [load_mem].
-      destruct (Z.ltb_spec (Z.of_nat (length D) - 2) 0); [lia|].
-      destruct (Z.ltb_spec (Z.of_nat (length D) - 1) 0); [lia|].
-      replace (Z.to_nat (Z.of_nat (length D) - 2)) with (length D - 2) by lia.
-      replace (Z.to_nat (Z.of_nat (length D) - 1)) with (length D - 1) by lia.
-      rewrite !Hg, H1, H2'. cbn. rewrite (@skipn_last_two _ D _ _ H2 H1 H2'). reflexivity.
+  intros (Hh & Hn & Hg & Hp). unfold load_img. rewrite Hh, Hn. cbn [negb]. unfold load_idxs.
+  destruct (Nat.lt_ge_cases (length D) 2) as [H2|H2].
+  - destruct D as [|y [|y2 D2]]; cbn in H2; try lia.
+    + reflexivity.
+    + cbn [length Nat.sub seq load_mem]. rewrite Hg. reflexivity.
+  - destruct (@nth_error_in_range _ D (length D - 2)) as [x1 H1]; [lia|].
+    destruct (@nth_error_in_range _ D (length D - 1)) as [x2 H2']; [lia|].
+    replace (length D - (length D - 2)) with 2 by lia. cbn [seq load_mem].
+    replace (S (length D - 2)) with (length D - 1) by lia.
+    rewrite !Hg, H1, H2'. cbn. rewrite (@skipn_last_two _ D _ _ H2 H1 H2'). reflexivity.
 Qed.
 
-(* a successfully loaded history is in the refinement relation with the CLOSED abstract
-   trajectory whose pushed list is what the archive holds (window size 2, opened at 0) *)
+(* a loaded history is in the refinement relation with the CLOSED abstract trajectory whose pushed
+   list is what the archive holds (window size 2, opened at 0) *)
 Lemma loaded_inv (a : archive) D sv :
   disk_repr a D sv ->
   Inv 2 (mkA D (Some 0) sv true) (Some a, mkHist 2 (skipn (length D - 2) D) (length D) true true).
 Proof.
   intros H. constructor; cbn; auto. exists a. split; [reflexivity|]. split; [|lia].
-  unfold disk, shift. cbn. exact H.
+  unfold disk. cbn. exact H.
 Qed.
 
 (* ------------------------------------------------------------------ derived facts used by Props.v *)
-Lemma final_out v ml A (w : world) :
+Lemma final_out ml A (w : world) :
   1 <= ml -> Inv ml A w ->
-  snd (step v w Final) =
+  snd (step w Final) =
   if 1 <=? length (aP A) then OItem (nth_error (aP A) (length (aP A) - 1)) else OErr EIndex.
 Proof.
   intros Hml HI. destruct w as [fs h]. cbn [step snd].
@@ -588,9 +551,9 @@ Proof.
   destruct (@nth_error_in_range _ (aP A) (length (aP A) - 1)) as [y Hy]; [lia|]. now rewrite Hy.
 Qed.
 
-Lemma penultimate_out v ml A (w : world) :
+Lemma penultimate_out ml A (w : world) :
   2 <= ml -> Inv ml A w ->
-  snd (step v w Penultimate) =
+  snd (step w Penultimate) =
   if 2 <=? length (aP A) then OItem (nth_error (aP A) (length (aP A) - 2)) else OErr EIndex.
 Proof.
   intros Hml HI. destruct w as [fs h]. cbn [step snd].
@@ -601,9 +564,9 @@ Proof.
   destruct (@nth_error_in_range _ (aP A) (length (aP A) - 2)) as [y Hy]; [lia|]. now rewrite Hy.
 Qed.
 
-Lemma params_out v ml A (w : world) :
+Lemma params_out ml A (w : world) :
   Inv ml A w ->
-  snd (step v w GetParams) =
+  snd (step w GetParams) =
   match aopen A with
   | None => OErr ERuntime
   | Some _ => match asaved A with Some p => OParams p | None => OErr EFileNotFound end
@@ -616,88 +579,61 @@ Proof.
   destruct (asaved A); reflexivity.
 Qed.
 
-Lemma getitem_early_z ml A (w : world) (z : Z) :
-  1 <= ml -> Inv ml A w -> early ml A = true -> opened A = true ->
-  (- Z.of_nat (length (aP A)) <= z < Z.of_nat (length (aP A)))%Z ->
-  getitem w z =
-  Ok (nth_error (aP A) (Z.to_nat (if (z <? 0)%Z then z + Z.of_nat (length (aP A)) else z)%Z)).
-Proof.
-  intros Hml HI He Ho Hz. destruct (Z.ltb_spec z 0) as [Hn|Hn].
-  - rewrite (getitem_neg Hml HI) by lia.
-    rewrite <- (Z2Nat.id (z + Z.of_nat (length (aP A)))) at 1 by lia.
-    apply (getitem_early Hml HI); auto. lia.
-  - rewrite <- (Z2Nat.id z) at 1 by lia. apply (getitem_early Hml HI); auto. lia.
-Qed.
-
 (* everything a reloaded trajectory holds, read through its own __getitem__ *)
 Lemma loaded_contents (a : archive) D sv :
   disk_repr a D sv ->
   contents (Some a, mkHist 2 (skipn (length D - 2) D) (length D) true true) = (map Some D, None).
 Proof.
   intros H. pose proof (loaded_inv H) as HI. unfold contents. cbn [snd len].
-  apply (@iter_early 2 _ _ (le_S _ _ (le_n 1)) HI); reflexivity.
+  apply (@iter_opened 2 _ _ (le_S _ _ (le_n 1)) HI); reflexivity.
 Qed.
 
 (* what `load` finds after the process stopped once `ops1` had been carried out *)
-Lemma crash_load v ml (ops1 ops2 : list op) :
-  1 <= ml -> proper (ops1 ++ ops2) = true -> early ml (spec (ops1 ++ ops2)) = true ->
-  let w1 := exec v ml ops1 in
-  match load_img v (img_of (fst w1)) with
-  | Err e => (e = EFileNotFound /\ fst w1 = None) \/
-             (e = EKey /\ v = false /\ exists a, fst w1 = Some a /\ n_coords a = 0)
+Lemma crash_load ml (ops1 ops2 : list op) :
+  1 <= ml -> proper (ops1 ++ ops2) = true ->
+  let w1 := exec ml ops1 in
+  match load_img (img_of (fst w1)) with
+  | Err e => e = EFileNotFound /\ fst w1 = None
   | Ok h' => exists D, contents (fst w1, h') = (map Some D, None) /\ len h' = length D /\
-                       prefix D (pushed (ops1 ++ ops2)) /\
-                       (aclosed (spec ops1) = true -> D = pushed ops1) /\
-                       snd (step v (fst w1, h') GetParams) = snd (step v w1 GetParams)
+                       prefix D (pushed ml (ops1 ++ ops2)) /\
+                       (aclosed (spec ml ops1) = true -> D = pushed ml ops1) /\
+                       snd (step (fst w1, h') GetParams) = snd (step w1 GetParams)
   end.
 Proof.
-  intros Hml Hp He w1.
-  destruct (proper_from_app _ _ _ Hp) as [Hp1 _].
-  pose proof (early_prefix _ _ _ He) as He1.
-  pose proof (@exec_inv v ml ops1 Hml Hp1) as HI. fold w1 in HI.
+  intros Hml Hp w1.
+  destruct (proper_app _ _ Hp) as [Hp1 _].
+  pose proof (@exec_inv ml ops1 Hml Hp1) as HI. fold w1 in HI.
   pose proof (inv_fs HI) as Hfs.
-  destruct (aopen (spec ops1)) as [L|] eqn:EL.
+  destruct (aopen (spec ml ops1)) as [L|] eqn:EL.
   - destruct Hfs as (a & Ea & Hd & HL). rewrite Ea. cbn [img_of].
-    rewrite (load_repr v Hd).
-    assert (Hpre : prefix (disk ml (spec ops1)) (pushed (ops1 ++ ops2))).
-    { rewrite (@disk_early ml _ Hml He1). unfold pushed, spec. rewrite arun_app.
-      destruct (arun_prefix ops2 (arun ainit ops1)) as [r Hr]. rewrite Hr.
-      destruct (aclosed (arun ainit ops1)).
-      - apply prefix_app.
-      - eapply prefix_trans; [apply prefix_firstn|apply prefix_app]. }
-    assert (Hcl : aclosed (spec ops1) = true -> disk ml (spec ops1) = pushed ops1).
-    { intros Hc. rewrite (@disk_early ml _ Hml He1), Hc. reflexivity. }
-    assert (Hpar : forall h', snd (step v (Some a, h') GetParams) = snd (step v w1 GetParams) \/ fname h' = false).
-    { intros h'. destruct (fname h') eqn:Ef; [left|now right].
-      rewrite (params_out v HI), EL. destruct Hd as (_ & _ & _ & Hg).
-      cbn [step]. rewrite Ef, Hg. cbn [negb]. destruct (asaved (spec ops1)); reflexivity. }
-    destruct (disk ml (spec ops1)) as [|d0 D'] eqn:ED.
-    + destruct v.
-      * exists []. cbn. repeat split; auto.
-        destruct (Hpar (mkHist 2 [] 0 true true)) as [H|H]; [exact H|discriminate].
-      * right. repeat split. exists a. split; [reflexivity|]. destruct Hd as (_ & Hn & _). exact Hn.
-    + rewrite <- ED in *. exists (disk ml (spec ops1)). split; [|split; [reflexivity|split; [exact Hpre|split; [exact Hcl|]]]].
-      * apply (loaded_contents Hd).
-      * destruct (Hpar (mkHist 2 (skipn (length (disk ml (spec ops1)) - 2) (disk ml (spec ops1)))
-                          (length (disk ml (spec ops1))) true true)) as [H|H]; [exact H|discriminate].
-  - destruct Hfs as (Ea & _). rewrite Ea. cbn. left. auto.
+    rewrite (load_repr Hd).
+    exists (disk ml (spec ml ops1)). split; [apply (loaded_contents Hd)|]. split; [reflexivity|].
+    split; [|split].
+    + unfold disk, pushed, spec. rewrite arun_app.
+      destruct (arun_prefix ml ops2 (arun ml ainit ops1)) as [r Hr]. rewrite Hr.
+      destruct (aclosed (arun ml ainit ops1)).
+      * apply prefix_app.
+      * eapply prefix_trans; [apply prefix_firstn|apply prefix_app].
+    + intros Hc. unfold disk. rewrite Hc. reflexivity.
+    + rewrite (params_out HI), EL. destruct Hd as (_ & _ & _ & Hg).
+      cbn [step fname negb]. rewrite Hg. destruct (asaved (spec ml ops1)); reflexivity.
+  - destruct Hfs as (Ea & _). rewrite Ea. cbn. auto.
 Qed.
 
 (* the invariant the task names: disk ++ memory = pushed, memory within its bound *)
-Lemma disk_mem_split v ml (ops : list op) :
-  1 <= ml -> proper ops = true -> early ml (spec ops) = true -> opened (spec ops) = true ->
-  aclosed (spec ops) = false ->
-  exists a D, fst (exec v ml ops) = Some a /\ n_coords a = length D /\
+Lemma disk_mem_split ml (ops : list op) :
+  1 <= ml -> proper ops = true -> opened (spec ml ops) = true -> aclosed (spec ml ops) = false ->
+  exists a D, fst (exec ml ops) = Some a /\ n_coords a = length D /\
               (forall i, get_coords i a = nth_error D i) /\
-              D ++ mem (snd (exec v ml ops)) = pushed ops /\
-              length (mem (snd (exec v ml ops))) <= ml.
+              D ++ mem (snd (exec ml ops)) = pushed ml ops /\
+              length (mem (snd (exec ml ops))) <= ml.
 Proof.
-  intros Hml Hp He Ho Hc. pose proof (@exec_inv v ml ops Hml Hp) as HI.
+  intros Hml Hp Ho Hc. pose proof (@exec_inv ml ops Hml Hp) as HI.
   pose proof (inv_fs HI) as Hfs. pose proof (inv_mem HI) as Hm.
-  unfold opened in Ho. destruct (aopen (spec ops)) as [L|] eqn:EL; [|discriminate].
+  unfold opened in Ho. destruct (aopen (spec ml ops)) as [L|] eqn:EL; [|discriminate].
   destruct Hfs as (a & Ea & (Hh & Hn & Hg & Hpp) & HL).
-  exists a, (disk ml (spec ops)). repeat split; auto.
-  - rewrite Hm, (@disk_early ml _ Hml He), Hc. apply firstn_skipn.
+  exists a, (disk ml (spec ml ops)). repeat split; auto.
+  - rewrite Hm. unfold disk. rewrite Hc. apply firstn_skipn.
   - rewrite Hm, skipn_length. unfold pushed. lia.
 Qed.
 
